@@ -11,7 +11,8 @@ BATCH = 1000
 RULE = ("one `load` of 1-4 circuit-breaking rules (all three strategies, 1-3 breakers on the main resource, sometimes a second "
         "resource; bucket counts {0,1,2,5,10}, statistic intervals that do / do not divide, ProbeNum in {0,1,2,3}, MinRequestAmount "
         "0..10, thresholds on a 1/1000 grid incl. 0 and 1, retry timeouts 1..3000 ms, ~4% invalid rules) followed by 40-260 ops built from "
-        "phases incl. ~2% odd input (unknown / double exit, resource without rules, re-used entry id) and "
+        "phases incl. ramps (bad completions first, good ones lift the window to the minimum), window roll-overs after good-only buckets, full recoveries (trip, deadline, ProbeNum good probes), "
+        "~20% of the entries with WithBatchCount(n), n in {0,1,2,3,5,70000}, ~2% odd input (unknown / double exit, resource without rules, re-used entry id) and "
         "bursts of entries with bad/good completions (response time around MaxAllowedRtMs), waits landing on bucket "
         "boundaries / retry deadline -1,0,+1 / whole windows, probes (good, bad, several in flight), stragglers exited in a later "
         "state, observations (`log`, `state`) after most ops; non-trivial = the listener log contains at least one Closed->Open and "
@@ -89,7 +90,11 @@ class G:
     def entry(self, res=None):
         res = res or (RES if self.rng.random() < 0.85 else self.rng.choice(self.resources()))
         self.nid += 1
-        self.ops.append(f"entry {self.nid} {res}")
+        # ~20% of the entries carry WithBatchCount(n): the breaker must count one completion per entry whatever n is
+        batch = ""
+        if self.rng.random() < 0.2:
+            batch = " #" + str(self.rng.choice([0, 1, 2, 2, 3, 3, 5, 70000]))
+        self.ops.append(f"entry {self.nid} {res}{batch}")
         self.open_ids.append(self.nid)
         return self.nid
 
@@ -107,11 +112,11 @@ class G:
             return self.rng.choice([m + 1, m + 1, m + 2, m + 30])
         return self.rng.choice([0, m, max(0, m - 1), 0]) if self.rng.random() < 0.9 else m + 1
 
-    def request(self, bad):
-        i = self.entry()
+    def request(self, bad, strict=False):
+        i = self.entry(RES if strict else None)
         self.obs(0.3)
         # slow and erroneous mostly coincide; sometimes they do not (breakers of different strategies then disagree)
-        slow = bad if self.rng.random() < 0.85 else not bad
+        slow = bad if (strict or self.rng.random() < 0.85) else not bad
         self.clock(self.rt(slow))
         self.exit(i, bad)
         self.obs()
@@ -136,9 +141,56 @@ class G:
             d = rng.choice([r["stat"], r["stat"] + 1, max(1, r["stat"] - 1), 2 * r["stat"] + 3, r["retry"] * 2, 10 * r["stat"]])
         self.clock(max(0, d))
 
+    def ramp(self):
+        """bad completions first while the window is still below MinRequestAmount, then good ones lift it to the
+        minimum with the ratio / count already at the threshold: the *good* completion must trip the breaker"""
+        rng = self.rng
+        r = rng.choice([x for x in self.rules if x["res"] == RES])
+        if rng.random() < 0.6:
+            self.clock(r["stat"] + rng.choice([1, r["retry"], 2 * r["stat"]]))      # start from an empty window
+        m = max(2, r["minreq"])
+        f = rng.randint(1, m - 1)
+        for _ in range(f):
+            self.request(True, strict=True)
+        for _ in range(m - f + rng.choice([0, 0, 1])):
+            self.request(False, strict=True)
+        self.obs(1.0)
+
+    def roll(self):
+        """a bucket that saw only good (fast) completions is recycled one or more array cycles later and then
+        receives bad ones: the old totals must be gone"""
+        rng = self.rng
+        r = rng.choice([x for x in self.rules if x["res"] == RES])
+        n, L = geometry(r)
+        for _ in range(rng.randint(1, 6)):
+            self.request(False, strict=True)
+        self.clock(rng.choice([1, 2]) * r["stat"] + rng.choice([0, 1, max(0, L - 1), L, r["retry"]]))
+        for _ in range(max(1, r["minreq"]) + rng.choice([0, 0, 1])):
+            self.request(True, strict=True)
+        self.obs(1.0)
+
+    def recover(self):
+        """trip, wait for the deadline, then max(1, ProbeNum) good probes one after the other: a full recovery (repeated
+        recoveries in one case exercise the probe counter across half-open phases)"""
+        rng = self.rng
+        r = rng.choice([x for x in self.rules if x["res"] == RES])
+        for _ in range(max(1, r["minreq"])):
+            self.request(True, strict=True)
+        self.clock(max(x["retry"] for x in self.rules) + rng.choice([0, 0, 1]))
+        for _ in range(max(1, max(x["probe"] for x in self.rules)) + rng.choice([0, 0, 1])):
+            self.request(False, strict=True)
+        self.obs(1.0)
+
     def phase(self):
         rng = self.rng
         k = rng.random()
+        if k < 0.07:
+            return self.ramp()
+        if k < 0.14:
+            return self.roll()
+        if k < 0.20:
+            return self.recover()
+        k = (k - 0.20) / 0.80
         if k < 0.30:
             # burst with a given share of bad completions
             p = rng.choice([0.0, 0.3, 0.5, 0.8, 1.0])
